@@ -56,7 +56,7 @@ def text(cps):
     return ''.join(chr(c) for c in cps)
 
 
-def dump(resources, fmt, target, root, pre_steps=(), **opts):
+def dump(resources, fmt, target, root, pre_steps=(), second=False, **opts):
     """resources: list of (name, fields, rows). Returns (written descriptor, read(path)->bytes, load_source)"""
     import dataflows as DF
     from ..common import tuple_source
@@ -66,9 +66,16 @@ def dump(resources, fmt, target, root, pre_steps=(), **opts):
         # a later step that edits rows in place must not change what the dumper wrote
         for k in list(row):
             row[k] = None
+    # second: ANOTHER file dumper later in the same flow, with the other format and the other kind of target - what the first one writes
+    # is its own business
+    other = []
+    if second:
+        ofmt = 'json' if fmt == 'csv' else 'csv'
+        os.makedirs(os.path.join(root, 'out2'), exist_ok=True)
+        other = [DF.dump_to_zip(os.path.join(root, 'out2', 'x.zip'), format=ofmt)] if target == 'path' else [DF.dump_to_path(os.path.join(root, 'out2'), format=ofmt)]
     with contextlib.redirect_stdout(io.StringIO()):
         if target == 'path':
-            DF.Flow(tuple_source(resources), *pre_steps, DF.dump_to_path(out, format=fmt, **opts), wipe).process()
+            DF.Flow(tuple_source(resources), *pre_steps, DF.dump_to_path(out, format=fmt, **opts), *other, wipe).process()
             desc = json.load(open(os.path.join(out, 'datapackage.json')))
 
             def read(p):
@@ -76,7 +83,7 @@ def dump(resources, fmt, target, root, pre_steps=(), **opts):
             return desc, read, (os.path.join(out, 'datapackage.json'), {})
         os.makedirs(out, exist_ok=True)
         zp = os.path.join(out, 'o.zip')
-        DF.Flow(tuple_source(resources), *pre_steps, DF.dump_to_zip(zp, format=fmt, **opts), wipe).process()
+        DF.Flow(tuple_source(resources), *pre_steps, DF.dump_to_zip(zp, format=fmt, **opts), *other, wipe).process()
         z = zipfile.ZipFile(zp)
         desc = json.loads(z.read('datapackage.json'))
         return desc, (lambda p: z.read(p)), (zp, dict(format='datapackage'))
@@ -256,7 +263,7 @@ def typed_case(item):
                 # descriptor has to record the encoding of the WRITTEN file
                 import dataflows as DF_
                 pre = pre + [DF_.update_resource(None, encoding=cfg['enc'])]
-            desc, read, src = dump(copy.deepcopy(resources), cfg['format'], cfg['target'], root, pre_steps=pre, **opts)
+            desc, read, src = dump(copy.deepcopy(resources), cfg['format'], cfg['target'], root, pre_steps=pre, second=bool(cfg.get('second')), **opts)
         except Exception as e:
             return dict(ok=False, why='dump raised %s: %s' % (type(e).__name__, str(e)[:200]), cfg=cfg)
         problems, files, kf_crlf = [], [], []
@@ -438,7 +445,7 @@ def run():
     for cfg in cfgs:
         for _ in range(per):
             items.append(dict(cfg=dict(cfg, missing=r.choice([None, None] + mvs), dirs=r.random() < 0.3,
-                                       keyorder=r.random() < 0.35, enc=r.choice([None, None, 'windows-1252', 'utf-16'])), seed=r.randrange(10 ** 9), tier=t))
+                                       keyorder=r.random() < 0.35, second=r.random() < 0.3, enc=r.choice([None, None, 'windows-1252', 'utf-16'])), seed=r.randrange(10 ** 9), tier=t))
     tres = pmap(typed_case, items, chunksize=4)
     errs = harness_errors(tres)
     if errs:
